@@ -593,6 +593,57 @@ func (e *Engine) checkHistory() {
 	if e.plan.Flags.SingleClient && e.plan.Flags.AllFits && e.plan.Flags.Injective {
 		e.checkModel(ops)
 	}
+	e.checkFreshByModel(ops)
+}
+
+// mviolate reports a finding of the reference model: under its own property,
+// or, when the model is deciding "a cleared cache serves as a fresh one would",
+// under C15.
+func (e *Engine) mviolate(prop, rule, msg string, seq uint64) {
+	if e.modelAs != "" {
+		prop, rule, msg = e.modelAs, "after-clear-"+rule, "on the cache cleared at #"+fmt.Sprint(e.modelFrom)+", compared with a new cache: "+msg
+	}
+	e.violate(prop, rule, msg, seq)
+}
+
+// checkFreshByModel (C15): the epilogue task runs alone. From the return of
+// its first Clear on, the cache must accept and serve writes as a new one
+// would: the single-client reference model, started from the empty state,
+// decides every read the epilogue makes afterwards (everything-fits runs).
+func (e *Engine) checkFreshByModel(ops []*opRec) {
+	if e.epi == nil || !e.plan.Flags.AllFits || !e.plan.Flags.Injective || e.plan.Flags.SingleClient {
+		return
+	}
+	sort.Slice(ops, func(i, j int) bool { return ops[i].InvSeq < ops[j].InvSeq })
+	var start *opRec
+	for _, o := range ops {
+		if o.Task == e.epi.id && o.K == OpClear && o.RetSeq != 0 && !o.Closed {
+			start = o
+			break
+		}
+	}
+	if start == nil {
+		return
+	}
+	var suffix []*opRec
+	for _, o := range ops {
+		if o.Task != e.epi.id {
+			if o.RetSeq == 0 || o.RetSeq > start.InvSeq {
+				return // somebody else was still active: not a clean start
+			}
+			continue
+		}
+		if o.InvSeq > start.RetSeq {
+			suffix = append(suffix, o)
+		}
+	}
+	if len(suffix) == 0 {
+		return
+	}
+	probe(PrFreshModelChecked)
+	e.modelAs, e.modelFrom = "C15", start.InvSeq
+	e.checkModel(suffix)
+	e.modelAs = ""
 }
 
 // satAdd adds a non-negative duration to an instant (both in ns) without
@@ -1105,11 +1156,11 @@ func (e *Engine) checkModel(ops []*opRec) {
 			switch s.st {
 			case kAbsent, kExpired:
 				if hit {
-					e.violate("C06", "absent-hit", fmt.Sprintf("%s(key %d) at #%d hit (value %d) although the key was deleted/cleared/never written", name, o.Key, o.InvSeq, vid(x)), o.RetSeq)
+					e.mviolate("C06", "absent-hit", fmt.Sprintf("%s(key %d) at #%d hit (value %d) although the key was deleted/cleared/never written", name, o.Key, o.InvSeq, vid(x)), o.RetSeq)
 				}
 			case kPending:
 				if hit && o.K == OpGet && x != s.v {
-					e.violate("C06", "pending-wrong-value", fmt.Sprintf("Get(key %d) at #%d returned value %d while only value %d was pending", o.Key, o.InvSeq, vid(x), s.v.ID), o.RetSeq)
+					e.mviolate("C06", "pending-wrong-value", fmt.Sprintf("Get(key %d) at #%d returned value %d while only value %d was pending", o.Key, o.InvSeq, vid(x), s.v.ID), o.RetSeq)
 				}
 			case kResident:
 				v := s.v
@@ -1117,7 +1168,7 @@ func (e *Engine) checkModel(ops []*opRec) {
 				case certainlyExpired(v, o.InvT):
 					probe(PrExpiredServedCheck)
 					if hit {
-						e.violate("C07", "served-after-expiry", fmt.Sprintf("%s(key %d) invoked after value %d's ttl %v had elapsed still found it", name, o.Key, v.ID, time.Duration(v.TTL)), o.RetSeq)
+						e.mviolate("C07", "served-after-expiry", fmt.Sprintf("%s(key %d) invoked after value %d's ttl %v had elapsed still found it", name, o.Key, v.ID, time.Duration(v.TTL)), o.RetSeq)
 					}
 					*s = kstate{st: kExpired}
 				case certainlyUnexpired(v, o.RetT):
@@ -1129,15 +1180,15 @@ func (e *Engine) checkModel(ops []*opRec) {
 						e.violate(prop, rule, fmt.Sprintf("%s(key %d) at #%d missed although value %d (ttl %v) was resident, fits, and was not overwritten, deleted, cleared or expired", name, o.Key, o.InvSeq, v.ID, time.Duration(v.TTL)), o.RetSeq)
 						// C06 also speaks about entries with a TTL staying retrievable until it elapses
 						if v.TTL > 0 {
-							e.violate("C06", "resident-miss", fmt.Sprintf("%s(key %d) at #%d missed although value %d was resident and its ttl had not elapsed", name, o.Key, o.InvSeq, v.ID), o.RetSeq)
+							e.mviolate("C06", "resident-miss", fmt.Sprintf("%s(key %d) at #%d missed although value %d was resident and its ttl had not elapsed", name, o.Key, o.InvSeq, v.ID), o.RetSeq)
 						}
 					} else if o.K == OpGet && x != v {
-						e.violate("C06", "resident-wrong-value", fmt.Sprintf("Get(key %d) at #%d returned value %d, expected the resident value %d", o.Key, o.InvSeq, vid(x), v.ID), o.RetSeq)
+						e.mviolate("C06", "resident-wrong-value", fmt.Sprintf("Get(key %d) at #%d returned value %d, expected the resident value %d", o.Key, o.InvSeq, vid(x), v.ID), o.RetSeq)
 					}
 					if hit && o.K == OpGetTTL {
 						d := o.A
 						if v.TTL == 0 && d != 0 {
-							e.violate("C07", "getttl-no-ttl", fmt.Sprintf("GetTTL(key %d) reported %v for an item written without ttl", o.Key, time.Duration(d)), o.RetSeq)
+							e.mviolate("C07", "getttl-no-ttl", fmt.Sprintf("GetTTL(key %d) reported %v for an item written without ttl", o.Key, time.Duration(d)), o.RetSeq)
 						}
 						if v.TTL > 0 {
 							lo := satAdd(v.InvT, v.TTL) - o.RetT
@@ -1148,13 +1199,13 @@ func (e *Engine) checkModel(ops []*opRec) {
 								lo, hi = 0, v.TTL
 							}
 							if d > v.TTL || d > hi || d < lo {
-								e.violate("C07", "getttl-range", fmt.Sprintf("GetTTL(key %d) reported %v; ttl given %v, consistent range [%v,%v]", o.Key, time.Duration(d), time.Duration(v.TTL), time.Duration(lo), time.Duration(hi)), o.RetSeq)
+								e.mviolate("C07", "getttl-range", fmt.Sprintf("GetTTL(key %d) reported %v; ttl given %v, consistent range [%v,%v]", o.Key, time.Duration(d), time.Duration(v.TTL), time.Duration(lo), time.Duration(hi)), o.RetSeq)
 							}
 						}
 					}
 				default:
 					if hit && o.K == OpGet && x != v {
-						e.violate("C06", "resident-wrong-value", fmt.Sprintf("Get(key %d) at #%d returned value %d, expected %d or a miss", o.Key, o.InvSeq, vid(x), v.ID), o.RetSeq)
+						e.mviolate("C06", "resident-wrong-value", fmt.Sprintf("Get(key %d) at #%d returned value %d, expected %d or a miss", o.Key, o.InvSeq, vid(x), v.ID), o.RetSeq)
 					}
 				}
 			case kSettled:
@@ -1193,15 +1244,15 @@ func (e *Engine) checkModel(ops []*opRec) {
 				switch {
 				case certainlyExpired(v, o.InvT):
 					if seen[v.ID] > 0 {
-						e.violate("C07", "served-after-expiry", fmt.Sprintf("IterValues yielded value %d after its ttl had elapsed", v.ID), o.RetSeq)
+						e.mviolate("C07", "served-after-expiry", fmt.Sprintf("IterValues yielded value %d after its ttl had elapsed", v.ID), o.RetSeq)
 					}
 				case certainlyUnexpired(v, o.RetT):
 					must++
 					may++
 					if seen[v.ID] == 0 && o.Arg < 0 {
-						e.violate("C06", "iter-missing", fmt.Sprintf("IterValues at #%d did not yield resident value %d (key %d)", o.InvSeq, v.ID, v.Key), o.RetSeq)
+						e.mviolate("C06", "iter-missing", fmt.Sprintf("IterValues at #%d did not yield resident value %d (key %d)", o.InvSeq, v.ID, v.Key), o.RetSeq)
 						if v.TTL > 0 {
-							e.violate("C07", "hidden-before-expiry", fmt.Sprintf("IterValues at #%d did not yield value %d (key %d, ttl %v) although it was resident and its ttl had not elapsed", o.InvSeq, v.ID, v.Key, time.Duration(v.TTL)), o.RetSeq)
+							e.mviolate("C07", "hidden-before-expiry", fmt.Sprintf("IterValues at #%d did not yield value %d (key %d, ttl %v) although it was resident and its ttl had not elapsed", o.InvSeq, v.ID, v.Key, time.Duration(v.TTL)), o.RetSeq)
 						}
 					}
 				default:
@@ -1210,7 +1261,7 @@ func (e *Engine) checkModel(ops []*opRec) {
 				delete(seen, v.ID)
 			}
 			for id := range seen {
-				e.violate("C06", "iter-extra", fmt.Sprintf("IterValues at #%d yielded value %d which is not resident in the reference model", o.InvSeq, id), o.RetSeq)
+				e.mviolate("C06", "iter-extra", fmt.Sprintf("IterValues at #%d yielded value %d which is not resident in the reference model", o.InvSeq, id), o.RetSeq)
 				break
 			}
 			if o.Arg >= 0 {
@@ -1222,7 +1273,7 @@ func (e *Engine) checkModel(ops []*opRec) {
 					hi = may
 				}
 				if len(o.Items) < lo || len(o.Items) > hi {
-					e.violate("C13", "iter-stop", fmt.Sprintf("IterValues asked to stop after %d callbacks made %d (resident: between %d and %d)", o.Arg+1, len(o.Items), must, may), o.RetSeq)
+					e.mviolate("C13", "iter-stop", fmt.Sprintf("IterValues asked to stop after %d callbacks made %d (resident: between %d and %d)", o.Arg+1, len(o.Items), must, may), o.RetSeq)
 				}
 			}
 		}
